@@ -266,6 +266,97 @@ def validate_traces(chk, traces, concrete, seed):
             raise tlc.MachineryError('binding demo failed: corrupted sort trace accepted')
 
 
+# ---- V2: petl's own DEBUG log as the trace of SortView's internal steps ------------------------------
+
+LOGMAP = [('iterate without cache', 'nocache'), ('clear cache', 'clear'), ('caching mem', 'cachemem'),
+          ('created temporary chunk file', 'chunk'), ('caching files', 'cachefiles'),
+          ('iterate from memory cache', 'frommem'), ('iterate from file cache', 'fromfile')]
+
+
+def record_log_traces(n, seed):
+    import logging
+    import petl as etl
+    rng = random.Random(seed + 5)
+    events = []
+
+    class H(logging.Handler):
+        def emit(self, rec):
+            msg = rec.getMessage()
+            for prefix, ev in LOGMAP:
+                if msg.startswith(prefix):
+                    events.append({'e': ev, 'id': 0})
+                    return
+    lg = logging.getLogger('petl.transform.sorts')
+    saved = (lg.level, lg.propagate)
+    h = H()
+    lg.setLevel(logging.DEBUG)
+    lg.addHandler(h)
+    lg.propagate = False
+    traces = []
+    try:
+        for _ in range(n):
+            nrows = rng.randrange(0, 7)
+            K = [rng.randrange(0, 4) for _ in range(nrows)]
+            B = rng.choice([0, 1, 2, 3, nrows, nrows + 1]) if nrows else rng.choice([0, 1, 2])
+            cache = rng.random() < 0.6
+            reverse = rng.random() < 0.4
+            t = [['k', 'id']] + [[(None if k == 0 else k), i + 1] for i, k in enumerate(K)]
+            del events[:]
+            with common.private_tmp() as tmp:
+                v = etl.sort(t, 'k', reverse=reverse, buffersize=(B or None), cache=cache, tempdir=tmp)
+                for _p in range(rng.randrange(1, 4)):
+                    it = iter(v)
+                    next(it)
+                    for r in it:
+                        events.append({'e': 'row', 'id': r[1]})
+                    events.append({'e': 'passend', 'id': 0})
+                del it, v
+            traces.append({'K': K, 'B': B, 'cache': cache, 'reverse': reverse, 'events': list(events)})
+    finally:
+        lg.removeHandler(h)
+        lg.setLevel(saved[0])
+        lg.propagate = saved[1]
+    return traces
+
+
+def validate_log_traces(chk, traces, seed):
+    sdir = tlc.scratch()
+    path = os.path.join(sdir, 'extsortlog.ndjson')
+    tlc.write_ndjson(path, traces)
+    r = tlc.run('ExtSortLog', timeout=1200, env={'TRACE_FILE': path}, workers=1, coverage=False)
+    if r.error:
+        raise tlc.MachineryError('ExtSortLog: %s' % r.error)
+    chk.add_tlc(r, 'ExtSortLog')
+    v = common.verdicts(r)
+    if len(v) != len(traces):
+        raise tlc.MachineryError('ExtSortLog: %d verdicts for %d traces' % (len(v), len(traces)))
+    if r.violated:
+        chk.violation({'op': 'sort', 'kind': 'log-trace'}, 'a recorded internal trace of sort() reaches a completed pass whose output violates %s' % r.violated,
+                      {'kind': 'logtrace', 'seed': seed})
+    for tid, (score, total) in sorted(v.items()):
+        if score != total + 1:
+            t = traces[tid - 1]
+            chk.add_drift('internal sort trace matched only %d of %d events: K=%r B=%d cache=%s reverse=%s next event %r'
+                          % (score, total, t['K'], t['B'], t['cache'], t['reverse'], t['events'][score] if score < total else '<end: pass not completed>'))
+    chk.validated += len(traces)
+    chk.sample({'kind': 'internal-log-trace', 'trace': traces[0]})
+    # binding demonstration: drop one `created temporary chunk file` event
+    cand = [i for i, t in enumerate(traces) if any(e['e'] == 'chunk' for e in t['events'])]
+    if cand:
+        bad = json.loads(json.dumps([traces[cand[0]]]))
+        k = [j for j, e in enumerate(bad[0]['events']) if e['e'] == 'chunk'][0]
+        del bad[0]['events'][k]
+        p2 = os.path.join(sdir, 'extsortlog_bad.ndjson')
+        tlc.write_ndjson(p2, bad)
+        r2 = tlc.run('ExtSortLog', timeout=300, env={'TRACE_FILE': p2}, workers=1, coverage=False)
+        v2 = common.verdicts(r2)
+        ok = v2[1][0] != v2[1][1] + 1
+        chk.note('binding demo (internal log trace): one chunk-file event removed -> matched %d of %d events (%s)'
+                 % (v2[1][0], v2[1][1], 'rejected as expected' if ok else 'ACCEPTED'))
+        if not ok and not chk.violations:
+            raise tlc.MachineryError('binding demo failed: internal log trace with a missing chunk event accepted')
+
+
 def run(tier, seed):
     chk = Check(PID, tier, seed)
     full = tier == 'thorough'
@@ -287,6 +378,7 @@ def run(tier, seed):
     check_mergex_cases(chk, mxcases, profiles)
     traces, concrete = record_traces(3000 if full else 300, seed)
     validate_traces(chk, traces, concrete, seed)
+    validate_log_traces(chk, record_log_traces(1200 if full else 250, seed), seed)
     from harness import algebra
     algebra.run(chk, ['A1', 'A7'], full, seed)
     chk.exhaustive = True
